@@ -93,7 +93,7 @@ def verify_function(qualname, options=None, timeout_ms=10000, repo_root=None):
     res["callees_assumed"] = sorted(getattr(ctx, "trust_callee", []))
     tsolve = time.time()
     for ob in ctx.obligations:
-        solve_obligation(ob, timeout_ms=timeout_ms, seed=int(os.environ.get("VERIF_SEED", "0") or 0) % 1000)
+        solve_obligation(ob, timeout_ms=(min(timeout_ms, 2000) if "canary" in ob.kind else timeout_ms), seed=int(os.environ.get("VERIF_SEED", "0") or 0) % 1000)
         res["obligations"].append({
             "name": ob.name, "kind": ob.kind, "status": ob.status, "clause": ob.clause, "loc": ob.loc,
             "backend": ob.backend, "seconds": round(ob.seconds, 4), "model": ob.model, "reason": ob.reason,
